@@ -178,7 +178,36 @@ Theorem C03_startup_loses_typeahead_refuted :
 Proof. exact startup_loses_typeahead_refuted. Qed.
 Print Assumptions C03_startup_loses_typeahead_refuted.
 
+(* mouse_roundtrip over BYTES: ESC [ < digits ; digits ; digits M|m (any digit strings that fit
+   in an int, leading zeros included) is delivered by the parser model as the one CSI carrying
+   the numbers they denote, and the input loop, in any state, turns those bytes into exactly one
+   mouse event with the encoded button, position, modifiers and type. *)
+Theorem C03_sgr_bytes_parse : forall d1 d2 d3 fin,
+  fits d1 = true -> fits d2 = true -> fits d3 = true -> fin = 77 \/ fin = 109 ->
+  parse_bytes ([27; 91; 60] ++ d1 ++ 59 :: d2 ++ 59 :: d3 ++ [fin]) =
+  [ICsi [60] [[dval d1]; [dval d2]; [dval d3]] fin; IEof].
+Proof. exact sgr_bytes_parse. Qed.
+Print Assumptions C03_sgr_bytes_parse.
+
+Theorem C03_sgr_bytes_become_the_event : forall dec b64 s b col row sh al ct mo rel d1 d2 d3,
+  button_ok b = true -> int64_ok col = true -> int64_ok row = true ->
+  fits d1 = true -> fits d2 = true -> fits d3 = true ->
+  dval d1 = sgr_cb b sh al ct mo -> dval d2 = col + 1 -> dval d3 = row + 1 ->
+  q_stalled s = None ->
+  exists s' es,
+    run dec b64 s (parse_bytes ([27; 91; 60] ++ d1 ++ 59 :: d2 ++ 59 :: d3 ++ [sgr_final rel])) = Ok s' es /\
+    user_events es = [EMouse (sgr_mouse b col row sh al ct mo rel)].
+Proof. exact sgr_bytes_event. Qed.
+Print Assumptions C03_sgr_bytes_become_the_event.
+
 (* ---------- non-vacuity ---------- *)
+(* ESC [ < 20 ; 10 ; 5 M  is Shift+Ctrl+left press at column 9, row 4 *)
+Example C03_example_sgr_bytes :
+  fits [50; 48] = true /\ fits [49; 48] = true /\ fits [53] = true /\
+  dval [50; 48] = sgr_cb 0 true false true false /\ dval [49; 48] = 9 + 1 /\ dval [53] = 4 + 1 /\
+  button_ok 0 = true.
+Proof. exact sgr_bytes_example. Qed.
+
 Definition ex_dec (it : item) : ikey :=
   match it with IPrint (r :: _) => mkIKey [r] r 0 0 0 0 | ICsi _ _ f => mkIKey [] f 0 0 0 0 | _ => mkIKey [] 0 0 0 0 0 end.
 Definition ex_stream : list selem :=
